@@ -317,7 +317,8 @@ theorem beforeDeleteA_ok {s s' : State} {id : Id} (h : beforeDeleteA s id = .ok 
 
 theorem ThgFrame.fields {s s' : State} (h : ThgFrame s s') :
     s'.hasA = s.hasA ∧ s'.hasB = s.hasB ∧ s'.a = s.a ∧ s'.b = s.b ∧ s'.g = s.g ∧ s'.p = s.p ∧ s'.rc = s.rc ∧
-    s'.uName = s.uName ∧ s'.uAlias = s.uAlias ∧ s'.uCode = s.uCode ∧ s'.uLabel = s.uLabel ∧ s'.sRoles = s.sRoles := by
+    s'.uName = s.uName ∧ s'.uAlias = s.uAlias ∧ s'.uCode = s.uCode ∧ s'.uLabel = s.uLabel ∧ s'.sRoles = s.sRoles ∧
+    s'.uColour = s.uColour := by
   unfold ThgFrame at h; rw [h]; simp
 
 theorem uniqueBeforeDelete_absent {E : Type} {f : E → Bytes} {ents : Map Id E} {idx : Map Bytes Id} {v : Bytes}
@@ -452,7 +453,7 @@ theorem other_names_differ {E : Type} {f : E → Bytes} {ents : Map Id E} {idx :
 
 theorem BDFrame.fields {s s' : State} (h : BDFrame s s') :
     s'.hasA = s.hasA ∧ s'.hasB = s.hasB ∧ s'.a = s.a ∧ s'.b = s.b ∧ s'.g = s.g ∧ s'.p = s.p ∧ s'.rc = s.rc ∧
-    s'.uCode = s.uCode ∧ s'.uLabel = s.uLabel := by
+    s'.uCode = s.uCode ∧ s'.uLabel = s.uLabel ∧ s'.uColour = s.uColour := by
   unfold BDFrame at h; rw [h]; simp
 
 
@@ -479,6 +480,8 @@ structure InvCore (s : State) : Prop where
   idB : s.b.lookup [] = none
   hasA : ∀ j e, s.a.lookup j = some e → s.hasA = true
   hasB : ∀ j e, s.b.lookup j = some e → s.hasB = true
+  /-- the extended child store's own unique index -/
+  uColour : UI (fun e => e.colour.getD []) s.a s.uColour
 
 /-- the self reference `boss` names an existing entity — except for the entities whose cascading
     delete is in progress (`busy`): the boss of such an entity may already be gone (cycles) -/
@@ -490,7 +493,7 @@ structure Inv (s : State) : Prop extends InvCore s where
   boss : BossOK [] s
 
 theorem inv_empty : Inv State.empty := by
-  refine ⟨⟨?_, ?_, ?_, ?_, ?_, ?_, ?_, ?_, ?_, LinkInv.empty _ _, LinkInv.empty _ _, RcInv.empty _ _, ?_, ?_, ?_, ?_, ?_, ?_, ?_⟩, ?_, ?_⟩ <;>
+  refine ⟨⟨?_, ?_, ?_, ?_, ?_, ?_, ?_, ?_, ?_, LinkInv.empty _ _, LinkInv.empty _ _, RcInv.empty _ _, ?_, ?_, ?_, ?_, ?_, ?_, ?_, ?_⟩, ?_, ?_⟩ <;>
     simp [State.empty, UI, SI, NEK, BR, ThgDom, BossOK]
 
 theorem aEx_congr {s s' : State} (h : s'.a = s.a) : s'.aEx = s.aEx := by funext j; simp [State.aEx, h]
@@ -520,10 +523,11 @@ theorem core_assemble {s s' : State} {id : Id} {e : EntA} (hi : InvCore s)
     (hown : e.owner.getD [] ≠ [] → s.bEx (e.owner.getD []) = true)
     (hdep : e.dep.getD [] ≠ [] → s.bEx (e.dep.getD []) = true)
     (hg : LinkInv s'.g s'.aEx s'.bEx) (hp : LinkInv s'.p s'.cEx s'.bEx) (hrc : RcInv s'.rc s'.aEx s'.bEx)
-    (hne : e.name ≠ []) (hre : [] ∉ e.roles) (hce : ∀ c, e.code = some c → c ≠ []) (hid : id ≠ []) : InvCore s' := by
+    (hne : e.name ≠ []) (hre : [] ∉ e.roles) (hce : ∀ c, e.code = some c → c ≠ []) (hid : id ≠ [])
+    (huX : UI (fun e => e.colour.getD []) s'.a s'.uColour) : InvCore s' := by
   have hbe : s'.bEx = s.bEx := bEx_congr hb
   refine ⟨huN, huA, huC, hsr, hnek, hbr, hthg, ?_, ?_, hg, hp, hrc, ?_, ?_, ?_, ?_,
-    by rw [hb]; exact hi.idB, fun _ _ _ => hhasA, ?_⟩
+    by rw [hb]; exact hi.idB, fun _ _ _ => hhasA, ?_, huX⟩
   · intro j e'; rw [ha, hbe]; simp only [Map.lookup_insert]; split
     · intro h; cases h; exact hown
     · exact hi.ownerExists j e'
@@ -592,22 +596,22 @@ theorem inv_createA {s s' : State} {id : Id} {v : ValsA} (hi : Inv s) (h : creat
       · cases h
       · next s2 hsl =>
         obtain ⟨g', hg', rfl⟩ := setGroups_ok hsl
-        have hg1 : LinkInv s.g ({ s with hasA := true, a := s.a.insert id ⟨v.name, v.alias, setOf v.roles, v.owner, v.dep, v.boss, none⟩ } : State).aEx s.bEx :=
+        have hg1 : LinkInv s.g ({ s with hasA := true, a := s.a.insert id ⟨v.name, v.alias, setOf v.roles, v.owner, v.dep, v.boss, none, none⟩ } : State).aEx s.bEx :=
           hi.g.mono (aEx_insert_mono rfl) (fun _ h => h)
         have hg2 := LinkPair.setLinks_pres hg1 (aEx_insert_self rfl) hg'
         obtain ⟨un, ua, sr, hun, hua, hsr, hfk, hdep, hboss⟩ := afterUpdateA_ok h
         simp only [Map.lookup_insert, if_true, evName, evAlias, evRoles, evOwner, evDep, evBoss, Captured.none] at hun hua hsr hfk hdep hboss
-        obtain ⟨k1, k2, k3, k4⟩ := fkAfter_create_ok (e := ⟨v.name, v.alias, setOf v.roles, v.owner, v.dep, v.boss, none⟩)
+        obtain ⟨k1, k2, k3, k4⟩ := fkAfter_create_ok (e := ⟨v.name, v.alias, setOf v.roles, v.owner, v.dep, v.boss, none, none⟩)
           (ents := s.a) (by exact hi.br) (by exact hi.thgDom) hfresh hfk
-        obtain ⟨g1, g2, g3, g4, g5, g6, g7, g8, g9, g10, g11, g12⟩ := k2.fields
-        simp only at g1 g2 g3 g4 g5 g6 g7 g8 g9 g10 g11 g12
-        have hsr' := C03.setAfter_ok (r := (·.roles)) (e := (⟨v.name, v.alias, setOf v.roles, v.owner, v.dep, v.boss, none⟩ : EntA))
+        obtain ⟨g1, g2, g3, g4, g5, g6, g7, g8, g9, g10, g11, g12, g13⟩ := k2.fields
+        simp only at g1 g2 g3 g4 g5 g6 g7 g8 g9 g10 g11 g12 g13
+        have hsr' := C03.setAfter_ok (r := (·.roles)) (e := (⟨v.name, v.alias, setOf v.roles, v.owner, v.dep, v.boss, none, none⟩ : EntA))
           hi.sRoles hi.nek (oldRoles := []) (id := id) (by intro x; simp [hfresh]) hsr
-        have hae : s'.aEx = ({ s with hasA := true, a := s.a.insert id ⟨v.name, v.alias, setOf v.roles, v.owner, v.dep, v.boss, none⟩ } : State).aEx :=
+        have hae : s'.aEx = ({ s with hasA := true, a := s.a.insert id ⟨v.name, v.alias, setOf v.roles, v.owner, v.dep, v.boss, none, none⟩ } : State).aEx :=
           aEx_congr g3
         have hbe : s'.bEx = s.bEx := bEx_congr g4
-        refine ⟨core_assemble (e := ⟨v.name, v.alias, setOf v.roles, v.owner, v.dep, v.boss, none⟩) hi.toInvCore g3 g4 g2 g1
-          ?_ ?_ ?_ ?_ ?_ ?_ k3 ?_ ?_ ?_ ?_ ?_ ?_ ?_ ?_ hid, ?_, ?_⟩
+        refine ⟨core_assemble (e := ⟨v.name, v.alias, setOf v.roles, v.owner, v.dep, v.boss, none, none⟩) hi.toInvCore g3 g4 g2 g1
+          ?_ ?_ ?_ ?_ ?_ ?_ k3 ?_ ?_ ?_ ?_ ?_ ?_ ?_ ?_ hid ?_, ?_, ?_⟩
         · rw [g3, g8]; exact C03.uniqueAfter_create_ok hi.uName hfresh hun
         · rw [g3, g9]; exact C03.uniqueAfter_create_ok hi.uAlias hfresh hua
         · rw [g3, g10]; exact UI_insert_fresh_empty hi.uCode hfresh rfl
@@ -627,6 +631,7 @@ theorem inv_createA {s s' : State} {id : Id} {v : ValsA} (hi : Inv s) (h : creat
         · exact C03.uniqueAfter_create_nonempty hun rfl
         · exact C03.setAfter_ok_nonempty hsr (by simp)
         · intro c hc; cases hc
+        · rw [g3, g13]; exact UI_insert_fresh_empty hi.uColour hfresh rfl
         · rw [g4, g11]; exact hi.uLabel
         · refine bossOK_insert hi.boss g3 (fun hne => ?_)
           rcases hboss hne with ⟨hc, _⟩ | hb
@@ -664,14 +669,14 @@ theorem inv_updateA {s s' : State} {id : Id} {v : ValsA} {chk : Option ChkA} (hi
       simp only [Map.lookup_insert, if_true, captureA, hold, evName, evAlias, evRoles, evOwner, evDep, evBoss] at hun hua hsr hfk hdep hboss
       obtain ⟨k1, k2, k3, k4⟩ := fkAfter_update_ok (e := persistFields old v chk) (ents := s.a) (by exact hi.br)
         (by exact hi.thgDom) hold (by exact hi.ownerExists id old hold) hfk
-      obtain ⟨g1, g2, g3, g4, g5, g6, g7, g8, g9, g10, g11, g12⟩ := k2.fields
-      simp only at g1 g2 g3 g4 g5 g6 g7 g8 g9 g10 g11 g12
+      obtain ⟨g1, g2, g3, g4, g5, g6, g7, g8, g9, g10, g11, g12, g13⟩ := k2.fields
+      simp only at g1 g2 g3 g4 g5 g6 g7 g8 g9 g10 g11 g12 g13
       have hsr' := C03.setAfter_ok (r := (·.roles)) (e := persistFields old v chk)
         hi.sRoles hi.nek (oldRoles := old.roles) (id := id) (by intro x; simp [hold]) hsr
       have hae : s'.aEx = ({ s with a := s.a.insert id (persistFields old v chk) } : State).aEx := aEx_congr g3
       have hbe : s'.bEx = s.bEx := bEx_congr g4
       refine ⟨core_assemble (e := persistFields old v chk) hi.toInvCore g3 g4 g2 (by rw [g1]; exact hi.hasA id old hold)
-        ?_ ?_ ?_ ?_ ?_ ?_ k3 ?_ ?_ ?_ ?_ ?_ ?_ ?_ ?_ hid, ?_, ?_⟩
+        ?_ ?_ ?_ ?_ ?_ ?_ k3 ?_ ?_ ?_ ?_ ?_ ?_ ?_ ?_ hid ?_, ?_, ?_⟩
       · rw [g3, g8]; exact C03.uniqueAfter_update_ok (f := fun (e : EntA) => e.name) hi.uName hold hun
       · rw [g3, g9]; exact C03.uniqueAfter_update_ok (f := fun (e : EntA) => e.alias.getD []) hi.uAlias hold hua
       · rw [g3, g10]; exact UI_insert_same hi.uCode hold rfl
@@ -692,6 +697,7 @@ theorem inv_updateA {s s' : State} {id : Id} {v : ValsA} {chk : Option ChkA} (hi
       · exact C03.uniqueAfter_update_nonempty hun (hi.namesNonEmpty id old hold)
       · exact C03.setAfter_ok_nonempty hsr (hi.rolesNonEmpty id old hold)
       · intro c hc; exact hi.codeNonEmpty id old c hold hc
+      · rw [g3, g13]; exact UI_insert_same hi.uColour hold rfl
       · rw [g4, g11]; exact hi.uLabel
       · refine bossOK_insert hi.boss g3 (fun hne => ?_)
         rcases hboss hne with ⟨_, hc⟩ | hb
@@ -706,6 +712,7 @@ theorem inv_updateA {s s' : State} {id : Id} {v : ValsA} {chk : Option ChkA} (hi
 theorem inv_createA1 {s s' : State} {id : Id} {v : ValsA} {code : Bytes} {pals : List Id} (hi : Inv s)
     (h : createA1 s id v code pals = .ok s') : Inv s' := by
   unfold createA1 at h
+  generalize hcol : (s.a.lookup id).bind (·.colour) = col at h
   split at h
   · cases h
   · next hid =>
@@ -721,10 +728,10 @@ theorem inv_createA1 {s s' : State} {id : Id} {v : ValsA} {code : Bytes} {pals :
         · cases h
         · next s2' hsp =>
           obtain ⟨p', hp', rfl⟩ := setPals_ok hsp
-          have hg1 : LinkInv s.g ({ s with hasA := true, a := s.a.insert id ⟨v.name, v.alias, setOf v.roles, v.owner, v.dep, v.boss, some code⟩ } : State).aEx s.bEx :=
+          have hg1 : LinkInv s.g ({ s with hasA := true, a := s.a.insert id ⟨v.name, v.alias, setOf v.roles, v.owner, v.dep, v.boss, some code, col⟩ } : State).aEx s.bEx :=
             hi.g.mono (aEx_insert_mono rfl) (fun _ h => h)
           have hg2 := LinkPair.setLinks_pres hg1 (aEx_insert_self rfl) hg'
-          have hp1 : LinkInv s.p ({ s with hasA := true, a := s.a.insert id ⟨v.name, v.alias, setOf v.roles, v.owner, v.dep, v.boss, some code⟩ } : State).cEx s.bEx :=
+          have hp1 : LinkInv s.p ({ s with hasA := true, a := s.a.insert id ⟨v.name, v.alias, setOf v.roles, v.owner, v.dep, v.boss, some code, col⟩ } : State).cEx s.bEx :=
             hi.p.mono (cEx_insert_mono rfl (fun _ => rfl)) (fun _ h => h)
           have hp2 := LinkPair.setLinks_pres hp1 (by simp [State.cEx]) hp'
           split at h
@@ -740,25 +747,25 @@ theorem inv_createA1 {s s' : State} {id : Id} {v : ValsA} {code : Bytes} {pals :
               cases hold : s.a.lookup id with
               | none =>
                 simp only [hold, Option.isSome_none, Bool.false_eq_true, if_false, Captured.none] at hun hua hsr hfk hdep hboss
-                obtain ⟨k1, k2, k3, k4⟩ := fkAfter_create_ok (e := ⟨v.name, v.alias, setOf v.roles, v.owner, v.dep, v.boss, some code⟩)
+                obtain ⟨k1, k2, k3, k4⟩ := fkAfter_create_ok (e := ⟨v.name, v.alias, setOf v.roles, v.owner, v.dep, v.boss, some code, col⟩)
                   (ents := s.a) (by exact hi.br) (by exact hi.thgDom) hold hfk
-                obtain ⟨g1, g2, g3, g4, g5, g6, g7, g8, g9, g10, g11, g12⟩ := k2.fields
-                simp only at g1 g2 g3 g4 g5 g6 g7 g8 g9 g10 g11 g12
+                obtain ⟨g1, g2, g3, g4, g5, g6, g7, g8, g9, g10, g11, g12, g13⟩ := k2.fields
+                simp only at g1 g2 g3 g4 g5 g6 g7 g8 g9 g10 g11 g12 g13
                 rw [g10] at huc
-                have hsr' := C03.setAfter_ok (r := (·.roles)) (e := (⟨v.name, v.alias, setOf v.roles, v.owner, v.dep, v.boss, some code⟩ : EntA))
+                have hsr' := C03.setAfter_ok (r := (·.roles)) (e := (⟨v.name, v.alias, setOf v.roles, v.owner, v.dep, v.boss, some code, col⟩ : EntA))
                   hi.sRoles hi.nek (oldRoles := []) (id := id) (by intro x; simp [hold]) hsr
-                have hae : s3.aEx = ({ s with hasA := true, a := s.a.insert id ⟨v.name, v.alias, setOf v.roles, v.owner, v.dep, v.boss, some code⟩ } : State).aEx :=
+                have hae : s3.aEx = ({ s with hasA := true, a := s.a.insert id ⟨v.name, v.alias, setOf v.roles, v.owner, v.dep, v.boss, some code, col⟩ } : State).aEx :=
                   aEx_congr g3
-                have hce : s3.cEx = ({ s with hasA := true, a := s.a.insert id ⟨v.name, v.alias, setOf v.roles, v.owner, v.dep, v.boss, some code⟩ } : State).cEx :=
+                have hce : s3.cEx = ({ s with hasA := true, a := s.a.insert id ⟨v.name, v.alias, setOf v.roles, v.owner, v.dep, v.boss, some code, col⟩ } : State).cEx :=
                   cEx_congr g3
                 have hbe : s3.bEx = s.bEx := bEx_congr g4
-                refine ⟨core_assemble (s' := { s3 with uCode := uc }) (e := ⟨v.name, v.alias, setOf v.roles, v.owner, v.dep, v.boss, some code⟩)
-                  hi.toInvCore g3 g4 g2 g1 ?_ ?_ ?_ ?_ ?_ ?_ k3 ?_ ?_ ?_ ?_ ?_ ?_ ?_ ?_ hid, ?_, ?_⟩
+                refine ⟨core_assemble (s' := { s3 with uCode := uc }) (e := ⟨v.name, v.alias, setOf v.roles, v.owner, v.dep, v.boss, some code, col⟩)
+                  hi.toInvCore g3 g4 g2 g1 ?_ ?_ ?_ ?_ ?_ ?_ k3 ?_ ?_ ?_ ?_ ?_ ?_ ?_ ?_ hid ?_, ?_, ?_⟩
                 · show UI _ s3.a s3.uName; rw [g3, g8]; exact C03.uniqueAfter_create_ok hi.uName hold hun
                 · show UI _ s3.a s3.uAlias; rw [g3, g9]; exact C03.uniqueAfter_create_ok hi.uAlias hold hua
                 · show UI _ s3.a uc; rw [g3]
                   exact C03.uniqueAfter_create_ok (f := fun (e : EntA) => e.code.getD [])
-                    (e := (⟨v.name, v.alias, setOf v.roles, v.owner, v.dep, v.boss, some code⟩ : EntA)) hi.uCode hold huc
+                    (e := (⟨v.name, v.alias, setOf v.roles, v.owner, v.dep, v.boss, some code, col⟩ : EntA)) hi.uCode hold huc
                 · show SI _ s3.a s3.sRoles; rw [g3, g12]; exact hsr'.1
                 · show NEK s3.sRoles; rw [g12]; exact hsr'.2
                 · show BR s3.a s3.thg; rw [g3]; exact k1
@@ -774,6 +781,7 @@ theorem inv_createA1 {s s' : State} {id : Id} {v : ValsA} {code : Bytes} {pals :
                 · exact C03.uniqueAfter_create_nonempty hun rfl
                 · exact C03.setAfter_ok_nonempty hsr (by simp)
                 · intro c hc; cases hc; exact C03.uniqueAfter_create_nonempty huc rfl
+                · show UI _ s3.a s3.uColour; rw [g3, g13]; exact UI_insert_fresh_empty hi.uColour hold (by simp [← hcol, hold])
                 · show UI _ s3.b s3.uLabel; rw [g4, g11]; exact hi.uLabel
                 · refine bossOK_insert (s' := { s3 with uCode := uc }) hi.boss g3 (fun hne => ?_)
                   rcases hboss hne with ⟨hc, _⟩ | hb
@@ -785,23 +793,23 @@ theorem inv_createA1 {s s' : State} {id : Id} {v : ValsA} {code : Bytes} {pals :
                   | none => rfl
                   | some c => simp [State.cEx, hold, hc] at hnc
                 simp only [hold, Option.isSome_some, if_true, captureA, evName, evAlias, evRoles, evOwner, evDep, evBoss] at hun hua hsr hfk hdep hboss
-                obtain ⟨k1, k2, k3, k4⟩ := fkAfter_true_ok (e := ⟨v.name, v.alias, setOf v.roles, v.owner, v.dep, v.boss, some code⟩)
+                obtain ⟨k1, k2, k3, k4⟩ := fkAfter_true_ok (e := ⟨v.name, v.alias, setOf v.roles, v.owner, v.dep, v.boss, some code, col⟩)
                   (ents := s.a) (by exact hi.br) (by exact hi.thgDom) hold hfk
-                obtain ⟨g1, g2, g3, g4, g5, g6, g7, g8, g9, g10, g11, g12⟩ := k2.fields
-                simp only at g1 g2 g3 g4 g5 g6 g7 g8 g9 g10 g11 g12
+                obtain ⟨g1, g2, g3, g4, g5, g6, g7, g8, g9, g10, g11, g12, g13⟩ := k2.fields
+                simp only at g1 g2 g3 g4 g5 g6 g7 g8 g9 g10 g11 g12 g13
                 rw [g10] at huc
                 have huc' : uniqueAfter true false ((fun (e : EntA) => e.code.getD []) old)
-                    ((fun (e : EntA) => e.code.getD []) ⟨v.name, v.alias, setOf v.roles, v.owner, v.dep, v.boss, some code⟩) id s.uCode = .ok uc := by
+                    ((fun (e : EntA) => e.code.getD []) ⟨v.name, v.alias, setOf v.roles, v.owner, v.dep, v.boss, some code, col⟩) id s.uCode = .ok uc := by
                   simpa [hcode] using huc
-                have hsr' := C03.setAfter_ok (r := (·.roles)) (e := (⟨v.name, v.alias, setOf v.roles, v.owner, v.dep, v.boss, some code⟩ : EntA))
+                have hsr' := C03.setAfter_ok (r := (·.roles)) (e := (⟨v.name, v.alias, setOf v.roles, v.owner, v.dep, v.boss, some code, col⟩ : EntA))
                   hi.sRoles hi.nek (oldRoles := old.roles) (id := id) (by intro x; simp [hold]) hsr
-                have hae : s3.aEx = ({ s with hasA := true, a := s.a.insert id ⟨v.name, v.alias, setOf v.roles, v.owner, v.dep, v.boss, some code⟩ } : State).aEx :=
+                have hae : s3.aEx = ({ s with hasA := true, a := s.a.insert id ⟨v.name, v.alias, setOf v.roles, v.owner, v.dep, v.boss, some code, col⟩ } : State).aEx :=
                   aEx_congr g3
-                have hce : s3.cEx = ({ s with hasA := true, a := s.a.insert id ⟨v.name, v.alias, setOf v.roles, v.owner, v.dep, v.boss, some code⟩ } : State).cEx :=
+                have hce : s3.cEx = ({ s with hasA := true, a := s.a.insert id ⟨v.name, v.alias, setOf v.roles, v.owner, v.dep, v.boss, some code, col⟩ } : State).cEx :=
                   cEx_congr g3
                 have hbe : s3.bEx = s.bEx := bEx_congr g4
-                refine ⟨core_assemble (s' := { s3 with uCode := uc }) (e := ⟨v.name, v.alias, setOf v.roles, v.owner, v.dep, v.boss, some code⟩)
-                  hi.toInvCore g3 g4 g2 g1 ?_ ?_ ?_ ?_ ?_ ?_ k3 ?_ ?_ ?_ ?_ ?_ ?_ ?_ ?_ hid, ?_, ?_⟩
+                refine ⟨core_assemble (s' := { s3 with uCode := uc }) (e := ⟨v.name, v.alias, setOf v.roles, v.owner, v.dep, v.boss, some code, col⟩)
+                  hi.toInvCore g3 g4 g2 g1 ?_ ?_ ?_ ?_ ?_ ?_ k3 ?_ ?_ ?_ ?_ ?_ ?_ ?_ ?_ hid ?_, ?_, ?_⟩
                 · show UI _ s3.a s3.uName; rw [g3, g8]
                   exact C03.uniqueAfter_true_ok (f := fun (e : EntA) => e.name) hi.uName hold hun
                 · show UI _ s3.a s3.uAlias; rw [g3, g9]
@@ -823,6 +831,7 @@ theorem inv_createA1 {s s' : State} {id : Id} {v : ValsA} {code : Bytes} {pals :
                 · exact C03.uniqueAfter_true_nonempty hun
                 · exact C03.setAfter_ok_nonempty hsr (hi.rolesNonEmpty id old hold)
                 · intro c hc; cases hc; exact C03.uniqueAfter_create_nonempty huc rfl
+                · show UI _ s3.a s3.uColour; rw [g3, g13]; exact UI_insert_same hi.uColour hold (by simp [← hcol, hold])
                 · show UI _ s3.b s3.uLabel; rw [g4, g11]; exact hi.uLabel
                 · refine bossOK_insert (s' := { s3 with uCode := uc }) hi.boss g3 (fun hne => ?_)
                   rcases hboss hne with ⟨hc, _⟩ | hb
@@ -830,6 +839,222 @@ theorem inv_createA1 {s s' : State} {id : Id} {v : ValsA} {code : Bytes} {pals :
                   · show s3.aEx _ = true; rw [hae]; exact hb
 
 
+
+/-- `A2.Create` (extended child store), on an id that does not exist at all or over an existing
+    parent entity without `ext2` data (its `ext1` data, if any, stays) -/
+theorem inv_createA2 {s s' : State} {id : Id} {v : ValsA} {colour : Bytes} (hi : Inv s)
+    (h : createA2 s id v colour = .ok s') : Inv s' := by
+  unfold createA2 at h
+  generalize hcd : (s.a.lookup id).bind (·.code) = cd at h
+  split at h
+  · cases h
+  · next hid =>
+    split at h
+    · cases h
+    · next hnx =>
+      simp only [bind, Except.bind] at h
+      split at h
+      · cases h
+      · next s2 hsl =>
+        obtain ⟨g', hg', rfl⟩ := setGroups_ok hsl
+        have hg1 : LinkInv s.g ({ s with hasA := true, a := s.a.insert id ⟨v.name, v.alias, setOf v.roles, v.owner, v.dep, v.boss, cd, some colour⟩ } : State).aEx s.bEx :=
+          hi.g.mono (aEx_insert_mono rfl) (fun _ h => h)
+        have hg2 := LinkPair.setLinks_pres hg1 (aEx_insert_self rfl) hg'
+        have hcx : ∀ j, s.cEx j = true → ({ s with hasA := true, a := s.a.insert id ⟨v.name, v.alias, setOf v.roles, v.owner, v.dep, v.boss, cd, some colour⟩ } : State).cEx j = true :=
+          cEx_insert_mono rfl (by intro hc; simpa [State.cEx, ← hcd] using hc)
+        split at h
+        · cases h
+        · next s3 hs3 =>
+          split at h
+          · cases h
+          · next uc huc =>
+            simp only [pure, Except.pure] at h
+            cases h
+            obtain ⟨un, ua, sr, hun, hua, hsr, hfk, hdep, hboss⟩ := afterUpdateA_ok hs3
+            simp only [Map.lookup_insert, if_true, evName, evAlias, evRoles, evOwner, evDep, evBoss] at hun hua hsr hfk hdep hboss
+            cases hold : s.a.lookup id with
+            | none =>
+              simp only [hold, Option.isSome_none, Bool.false_eq_true, if_false, Captured.none] at hun hua hsr hfk hdep hboss
+              obtain ⟨k1, k2, k3, k4⟩ := fkAfter_create_ok (e := ⟨v.name, v.alias, setOf v.roles, v.owner, v.dep, v.boss, cd, some colour⟩)
+                (ents := s.a) (by exact hi.br) (by exact hi.thgDom) hold hfk
+              obtain ⟨g1, g2, g3, g4, g5, g6, g7, g8, g9, g10, g11, g12, g13⟩ := k2.fields
+              simp only at g1 g2 g3 g4 g5 g6 g7 g8 g9 g10 g11 g12 g13
+              rw [g13] at huc
+              have hsr' := C03.setAfter_ok (r := (·.roles)) (e := (⟨v.name, v.alias, setOf v.roles, v.owner, v.dep, v.boss, cd, some colour⟩ : EntA))
+                hi.sRoles hi.nek (oldRoles := []) (id := id) (by intro x; simp [hold]) hsr
+              have hae : s3.aEx = ({ s with hasA := true, a := s.a.insert id ⟨v.name, v.alias, setOf v.roles, v.owner, v.dep, v.boss, cd, some colour⟩ } : State).aEx := aEx_congr g3
+              have hce : s3.cEx = ({ s with hasA := true, a := s.a.insert id ⟨v.name, v.alias, setOf v.roles, v.owner, v.dep, v.boss, cd, some colour⟩ } : State).cEx := cEx_congr g3
+              have hbe : s3.bEx = s.bEx := bEx_congr g4
+              refine ⟨core_assemble (s' := { s3 with uColour := uc }) (e := ⟨v.name, v.alias, setOf v.roles, v.owner, v.dep, v.boss, cd, some colour⟩)
+                hi.toInvCore g3 g4 g2 g1 ?_ ?_ ?_ ?_ ?_ ?_ k3 ?_ ?_ ?_ ?_ ?_ ?_ ?_ ?_ hid ?_, ?_, ?_⟩
+              · show UI _ s3.a s3.uName; rw [g3, g8]; exact C03.uniqueAfter_create_ok hi.uName hold hun
+              · show UI _ s3.a s3.uAlias; rw [g3, g9]; exact C03.uniqueAfter_create_ok hi.uAlias hold hua
+              · show UI _ s3.a s3.uCode; rw [g3, g10]; exact UI_insert_fresh_empty hi.uCode hold (by simp [← hcd, hold])
+              · show SI _ s3.a s3.sRoles; rw [g3, g12]; exact hsr'.1
+              · show NEK s3.sRoles; rw [g12]; exact hsr'.2
+              · show BR s3.a s3.thg; rw [g3]; exact k1
+              · exact k4
+              · intro hne
+                rcases hdep hne with ⟨hc, _⟩ | hb
+                · cases hc
+                · rw [hbe] at hb; exact hb
+              · show LinkInv s3.g s3.aEx s3.bEx; rw [g5, hae, hbe]; exact hg2
+              · show LinkInv s3.p s3.cEx s3.bEx; rw [g6, hce, hbe]; exact hi.p.mono hcx (fun _ h => h)
+              · show RcInv s3.rc s3.aEx s3.bEx; rw [g7, hbe]
+                exact hi.rc.mono (aEx_insert_mono g3) (fun _ h => h)
+              · exact C03.uniqueAfter_create_nonempty hun rfl
+              · exact C03.setAfter_ok_nonempty hsr (by simp)
+              · intro c hc; simp [← hcd, hold] at hc
+              · show UI _ s3.a uc; rw [g3]
+                exact C03.uniqueAfter_create_ok (f := fun (e : EntA) => e.colour.getD [])
+                  (e := (⟨v.name, v.alias, setOf v.roles, v.owner, v.dep, v.boss, cd, some colour⟩ : EntA)) hi.uColour hold huc
+              · show UI _ s3.b s3.uLabel; rw [g4, g11]; exact hi.uLabel
+              · refine bossOK_insert (s' := { s3 with uColour := uc }) hi.boss g3 (fun hne => ?_)
+                rcases hboss hne with ⟨hc, _⟩ | hb
+                · cases hc
+                · show s3.aEx _ = true; rw [hae]; exact hb
+            | some old =>
+              have hcolour : old.colour = none := by
+                cases hc : old.colour with
+                | none => rfl
+                | some c => simp [State.xEx, hold, hc] at hnx
+              have hcdo : cd = old.code := by rw [← hcd, hold]; rfl
+              simp only [hold, Option.isSome_some, if_true, captureA, evName, evAlias, evRoles, evOwner, evDep, evBoss] at hun hua hsr hfk hdep hboss
+              obtain ⟨k1, k2, k3, k4⟩ := fkAfter_true_ok (e := ⟨v.name, v.alias, setOf v.roles, v.owner, v.dep, v.boss, cd, some colour⟩)
+                (ents := s.a) (by exact hi.br) (by exact hi.thgDom) hold hfk
+              obtain ⟨g1, g2, g3, g4, g5, g6, g7, g8, g9, g10, g11, g12, g13⟩ := k2.fields
+              simp only at g1 g2 g3 g4 g5 g6 g7 g8 g9 g10 g11 g12 g13
+              rw [g13] at huc
+              have huc' : uniqueAfter true true ((fun (e : EntA) => e.colour.getD []) old)
+                  ((fun (e : EntA) => e.colour.getD []) ⟨v.name, v.alias, setOf v.roles, v.owner, v.dep, v.boss, cd, some colour⟩) id s.uColour = .ok uc := by
+                simpa [hcolour] using huc
+              have hsr' := C03.setAfter_ok (r := (·.roles)) (e := (⟨v.name, v.alias, setOf v.roles, v.owner, v.dep, v.boss, cd, some colour⟩ : EntA))
+                hi.sRoles hi.nek (oldRoles := old.roles) (id := id) (by intro x; simp [hold]) hsr
+              have hae : s3.aEx = ({ s with hasA := true, a := s.a.insert id ⟨v.name, v.alias, setOf v.roles, v.owner, v.dep, v.boss, cd, some colour⟩ } : State).aEx := aEx_congr g3
+              have hce : s3.cEx = ({ s with hasA := true, a := s.a.insert id ⟨v.name, v.alias, setOf v.roles, v.owner, v.dep, v.boss, cd, some colour⟩ } : State).cEx := cEx_congr g3
+              have hbe : s3.bEx = s.bEx := bEx_congr g4
+              refine ⟨core_assemble (s' := { s3 with uColour := uc }) (e := ⟨v.name, v.alias, setOf v.roles, v.owner, v.dep, v.boss, cd, some colour⟩)
+                hi.toInvCore g3 g4 g2 g1 ?_ ?_ ?_ ?_ ?_ ?_ k3 ?_ ?_ ?_ ?_ ?_ ?_ ?_ ?_ hid ?_, ?_, ?_⟩
+              · show UI _ s3.a s3.uName; rw [g3, g8]
+                exact C03.uniqueAfter_true_ok (f := fun (e : EntA) => e.name) hi.uName hold hun
+              · show UI _ s3.a s3.uAlias; rw [g3, g9]
+                exact C03.uniqueAfter_true_ok (f := fun (e : EntA) => e.alias.getD []) hi.uAlias hold hua
+              · show UI _ s3.a s3.uCode; rw [g3, g10]; exact UI_insert_same hi.uCode hold (by simp [hcdo])
+              · show SI _ s3.a s3.sRoles; rw [g3, g12]; exact hsr'.1
+              · show NEK s3.sRoles; rw [g12]; exact hsr'.2
+              · show BR s3.a s3.thg; rw [g3]; exact k1
+              · exact k4
+              · intro hne
+                rcases hdep hne with ⟨hc, _⟩ | hb
+                · cases hc
+                · rw [hbe] at hb; exact hb
+              · show LinkInv s3.g s3.aEx s3.bEx; rw [g5, hae, hbe]; exact hg2
+              · show LinkInv s3.p s3.cEx s3.bEx; rw [g6, hce, hbe]; exact hi.p.mono hcx (fun _ h => h)
+              · show RcInv s3.rc s3.aEx s3.bEx; rw [g7, hbe]
+                exact hi.rc.mono (aEx_insert_mono g3) (fun _ h => h)
+              · exact C03.uniqueAfter_true_nonempty hun
+              · exact C03.setAfter_ok_nonempty hsr (hi.rolesNonEmpty id old hold)
+              · intro c hc; exact hi.codeNonEmpty id old c hold (by rw [← hcdo]; exact hc)
+              · show UI _ s3.a uc; rw [g3]
+                exact C03.uniqueAfter_true_ok (f := fun (e : EntA) => e.colour.getD []) hi.uColour hold huc'
+              · show UI _ s3.b s3.uLabel; rw [g4, g11]; exact hi.uLabel
+              · refine bossOK_insert (s' := { s3 with uColour := uc }) hi.boss g3 (fun hne => ?_)
+                rcases hboss hne with ⟨hc, _⟩ | hb
+                · cases hc
+                · show s3.aEx _ = true; rw [hae]; exact hb
+
+/-- `A2.Update`: parent fields and `colour` through the extended child store -/
+theorem inv_updateA2 {s s' : State} {id : Id} {v : ValsA} {colour : Bytes} {chk : Option ChkA} {cc : Bool} (hi : Inv s)
+    (h : updateA2 s id v colour chk cc = .ok s') : Inv s' := by
+  unfold updateA2 at h
+  split at h
+  · cases h
+  · next hid =>
+    split at h
+    · cases h
+    · next old hold =>
+      split at h
+      · cases h
+      · next oc hoc =>
+      generalize hnewc : newColour chk cc colour oc = newc at h
+      simp only [bind, Except.bind] at h
+      have hg1 : LinkInv s.g ({ s with a := s.a.insert id { persistFields old v chk with colour := some newc } } : State).aEx s.bEx :=
+        hi.g.mono (aEx_insert_mono rfl) (fun _ h => h)
+      -- the link step, performed or not
+      have hlink : ∃ g' s3 uc, LinkInv g' ({ s with a := s.a.insert id { persistFields old v chk with colour := some newc } } : State).aEx s.bEx ∧
+          afterUpdateA false (captureA s id) ({ s with a := s.a.insert id { persistFields old v chk with colour := some newc }, g := g' } : State) id = .ok s3 ∧
+          uniqueAfter false true oc newc id s3.uColour = .ok uc ∧ s' = { s3 with uColour := uc } := by
+        by_cases hp : proceed chk (fun c => c.groups) = true
+        · simp only [hp, if_true] at h
+          split at h
+          · cases h
+          · next s2 hs2 =>
+            obtain ⟨g', hg', rfl⟩ := setGroups_ok hs2
+            split at h
+            · cases h
+            · next s3 hs3 =>
+              split at h
+              · cases h
+              · next uc huc =>
+                simp only [pure, Except.pure] at h
+                cases h
+                exact ⟨g', s3, uc, LinkPair.setLinks_pres hg1 (aEx_insert_self rfl) hg', hs3, huc, rfl⟩
+        · simp only [hp, Bool.false_eq_true, if_false, pure, Except.pure] at h
+          split at h
+          · cases h
+          · next s3 hs3 =>
+            split at h
+            · cases h
+            · next uc huc =>
+              cases h
+              exact ⟨s.g, s3, uc, hg1, hs3, huc, rfl⟩
+      obtain ⟨g', s3, uc, hg2, h3, huc, rfl⟩ := hlink
+      obtain ⟨un, ua, sr, hun, hua, hsr, hfk, hdep, hboss⟩ := afterUpdateA_ok h3
+      simp only [Map.lookup_insert, if_true, captureA, hold, evName, evAlias, evRoles, evOwner, evDep, evBoss] at hun hua hsr hfk hdep hboss
+      obtain ⟨k1, k2, k3, k4⟩ := fkAfter_update_ok (e := { persistFields old v chk with colour := some newc }) (ents := s.a) (by exact hi.br)
+        (by exact hi.thgDom) hold (by exact hi.ownerExists id old hold) hfk
+      obtain ⟨g1, g2, g3, g4, g5, g6, g7, g8, g9, g10, g11, g12, g13⟩ := k2.fields
+      simp only at g1 g2 g3 g4 g5 g6 g7 g8 g9 g10 g11 g12 g13
+      rw [g13] at huc
+      have huc' : uniqueAfter false true ((fun (e : EntA) => e.colour.getD []) old)
+          ((fun (e : EntA) => e.colour.getD []) { persistFields old v chk with colour := some newc }) id s.uColour = .ok uc := by
+        simpa [hoc] using huc
+      have hsr' := C03.setAfter_ok (r := (·.roles)) (e := ({ persistFields old v chk with colour := some newc } : EntA))
+        hi.sRoles hi.nek (oldRoles := old.roles) (id := id) (by intro x; simp [hold]) hsr
+      have hae : s3.aEx = ({ s with a := s.a.insert id { persistFields old v chk with colour := some newc } } : State).aEx := aEx_congr g3
+      have hbe : s3.bEx = s.bEx := bEx_congr g4
+      refine ⟨core_assemble (s' := { s3 with uColour := uc }) (e := { persistFields old v chk with colour := some newc })
+        hi.toInvCore g3 g4 g2 (by show s3.hasA = true; rw [g1]; exact hi.hasA id old hold)
+        ?_ ?_ ?_ ?_ ?_ ?_ k3 ?_ ?_ ?_ ?_ ?_ ?_ ?_ ?_ hid ?_, ?_, ?_⟩
+      · show UI _ s3.a s3.uName; rw [g3, g8]; exact C03.uniqueAfter_update_ok (f := fun (e : EntA) => e.name) hi.uName hold hun
+      · show UI _ s3.a s3.uAlias; rw [g3, g9]
+        exact C03.uniqueAfter_update_ok (f := fun (e : EntA) => e.alias.getD []) hi.uAlias hold hua
+      · show UI _ s3.a s3.uCode; rw [g3, g10]; exact UI_insert_same hi.uCode hold rfl
+      · show SI _ s3.a s3.sRoles; rw [g3, g12]; exact hsr'.1
+      · show NEK s3.sRoles; rw [g12]; exact hsr'.2
+      · show BR s3.a s3.thg; rw [g3]; exact k1
+      · exact k4
+      · intro hne
+        rcases hdep hne with ⟨_, hc⟩ | hb
+        · have := hi.depExists id old hold (by rw [hc]; exact hne)
+          rw [hc] at this; exact this
+        · rw [hbe] at hb; exact hb
+      · show LinkInv s3.g s3.aEx s3.bEx; rw [g5, hae, hbe]; exact hg2
+      · show LinkInv s3.p s3.cEx s3.bEx; rw [g6, hbe]
+        exact hi.p.mono (cEx_insert_mono g3 (by simp [State.cEx, hold, persistFields])) (fun _ h => h)
+      · show RcInv s3.rc s3.aEx s3.bEx; rw [g7, hbe]
+        exact hi.rc.mono (aEx_insert_mono g3) (fun _ h => h)
+      · exact C03.uniqueAfter_update_nonempty hun (hi.namesNonEmpty id old hold)
+      · exact C03.setAfter_ok_nonempty hsr (hi.rolesNonEmpty id old hold)
+      · intro c hc; exact hi.codeNonEmpty id old c hold hc
+      · show UI _ s3.a uc; rw [g3]
+        exact C03.uniqueAfter_update_ok (f := fun (e : EntA) => e.colour.getD []) hi.uColour hold huc'
+      · show UI _ s3.b s3.uLabel; rw [g4, g11]; exact hi.uLabel
+      · refine bossOK_insert (s' := { s3 with uColour := uc }) hi.boss g3 (fun hne => ?_)
+        rcases hboss hne with ⟨_, hc⟩ | hb
+        · have := hi.boss id old hold (by rw [hc]; exact hne) (by simp)
+          rw [hc] at this; exact aEx_insert_mono g3 _ this
+        · show s3.aEx _ = true; rw [hae]; exact hb
 
 theorem bEx_insert_mono {s : State} {id : Id} {e : EntB} {s' : State} (hb : s'.b = s.b.insert id e) :
     ∀ j, s.bEx j = true → s'.bEx j = true := by
@@ -842,7 +1067,7 @@ theorem bEx_insert_mono {s : State} {id : Id} {e : EntB} {s' : State} (hb : s'.b
 theorem core_of_b_insert {s s' : State} {id : Id} {e : EntB} (hi : InvCore s) (hid : id ≠ [])
     (hb : s'.b = s.b.insert id e) (ha : s'.a = s.a) (hg : s'.g = s.g) (hp : s'.p = s.p) (hrc : s'.rc = s.rc)
     (ht : s'.thg = s.thg) (h1 : s'.uName = s.uName) (h2 : s'.uAlias = s.uAlias) (h3 : s'.uCode = s.uCode)
-    (h4 : s'.sRoles = s.sRoles) (h5 : s'.hasA = s.hasA) (h6 : s'.hasB = true) : InvCore s' := by
+    (h4 : s'.sRoles = s.sRoles) (h5 : s'.hasA = s.hasA) (h6 : s'.hasB = true) (h7 : s'.uColour = s.uColour) : InvCore s' := by
   have hae : s'.aEx = s.aEx := aEx_congr ha
   have hce : s'.cEx = s.cEx := cEx_congr ha
   have hmono := bEx_insert_mono hb
@@ -851,7 +1076,7 @@ theorem core_of_b_insert {s s' : State} {id : Id} {e : EntB} (hi : InvCore s) (h
     by rw [hg, hae]; exact hi.g.mono (fun _ h => h) hmono, by rw [hp, hce]; exact hi.p.mono (fun _ h => h) hmono,
     by rw [hrc, hae]; exact hi.rc.mono (fun _ h => h) hmono,
     by rw [ha]; exact hi.namesNonEmpty, by rw [ha]; exact hi.rolesNonEmpty, by rw [ha]; exact hi.codeNonEmpty,
-    by rw [ha]; exact hi.idA, ?_, by rw [ha, h5]; exact hi.hasA, fun _ _ _ => h6⟩
+    by rw [ha]; exact hi.idA, ?_, by rw [ha, h5]; exact hi.hasA, fun _ _ _ => h6, by rw [ha, h7]; exact hi.uColour⟩
   · intro b l; rw [ht]; intro hl; exact hmono b (hi.thgDom b l hl)
   · intro j e'; rw [ha]; intro hj hne; exact hmono _ (hi.ownerExists j e' hj hne)
   · intro j e'; rw [ha]; intro hj hne; exact hmono _ (hi.depExists j e' hj hne)
@@ -874,7 +1099,7 @@ theorem inv_createB {s s' : State} {id : Id} {label : Option Bytes} (hi : Inv s)
       · cases h
       · next ul hul =>
         cases h
-        exact ⟨core_of_b_insert (e := ⟨label⟩) hi.toInvCore hid rfl rfl rfl rfl rfl rfl rfl rfl rfl rfl rfl rfl,
+        exact ⟨core_of_b_insert (e := ⟨label⟩) hi.toInvCore hid rfl rfl rfl rfl rfl rfl rfl rfl rfl rfl rfl rfl rfl,
           C03.uniqueAfter_create_ok (f := fun (e : EntB) => e.label.getD []) (e := ⟨label⟩) hi.uLabel hfresh hul,
           bossOK_congr hi.boss rfl⟩
 
@@ -892,7 +1117,7 @@ theorem inv_updateB {s s' : State} {id : Id} {label : Option Bytes} {chk : Optio
       · cases h
       · next ul hul =>
         cases h
-        exact ⟨core_of_b_insert hi.toInvCore hid rfl rfl rfl rfl rfl rfl rfl rfl rfl rfl rfl (hi.hasB id old hold),
+        exact ⟨core_of_b_insert hi.toInvCore hid rfl rfl rfl rfl rfl rfl rfl rfl rfl rfl rfl (hi.hasB id old hold) rfl,
           C03.uniqueAfter_update_ok (f := fun (e : EntB) => e.label.getD []) hi.uLabel hold hul,
           bossOK_congr hi.boss rfl⟩
 
@@ -916,12 +1141,52 @@ theorem LinkPair.cleanFwd_of_none {p : LinkPair} {bEx : Id → Bool} {id : Id} (
     p.cleanFwd bEx id = p := by
   simp [LinkPair.cleanFwd, h]
 
-/-- what `deleteA` computes, stage by stage -/
+/-- one constraint round of a delete: the first one strips the entity's index entries, the later
+    ones find nothing -/
+theorem strip_round {s s1 t : State} {id : Id} {e : EntA} (hi : InvCore s) (hold : s.a.lookup id = some e)
+    (ha : s1.a = s.a) (hx : IdxInv s.a s1 ∨ IdxInv (s.a.erase id) s1) (h : beforeDeleteA s1 id = .ok t) :
+    IdxInv (s.a.erase id) t ∧ BDFrame s1 t := by
+  rcases hx with hx | hx
+  · have := beforeDeleteA_first (s := s1) (by rw [ha]; exact hx) (by rw [ha]; exact hold) h
+    rwa [ha] at this
+  · exact beforeDeleteA_again hx (by simp) (by rw [ha]; exact hold)
+      (other_names_differ (f := fun (e : EntA) => e.name) hi.uName hold)
+      (other_names_differ (f := fun (e : EntA) => e.alias.getD []) hi.uAlias hold) h
+
+theorem deleteA0Tail_stages {s s1 s' : State} {id : Id} {e : EntA} (hi : InvCore s) (hold : s.a.lookup id = some e)
+    (ha : s1.a = s.a) (hx : IdxInv s.a s1 ∨ IdxInv (s.a.erase id) s1) (h : deleteA0Tail s1 e id = .ok s') :
+    ∃ s2, IdxInv (s.a.erase id) s2 ∧ s2.hasA = s1.hasA ∧ s2.hasB = s1.hasB ∧ s2.a = s1.a ∧ s2.b = s1.b ∧ s2.g = s1.g ∧
+      s2.p = s1.p ∧ s2.rc = s1.rc ∧ s2.uLabel = s1.uLabel ∧ s2.uCode = s1.uCode ∧
+      s2.uColour = uniqueBeforeDelete (e.colour.getD []) s1.uColour ∧
+      s' = { s2 with a := s2.a.erase id,
+                     g := { fwd := (s2.g.cleanFwd s2.bEx id).fwd.erase id, bwd := (s2.g.cleanFwd s2.bEx id).bwd },
+                     p := { fwd := s2.p.fwd.erase id, bwd := s2.p.bwd },
+                     rc := { fwd := (s2.rc.cleanFwd s2.bEx id).fwd.erase id, bwd := (s2.rc.cleanFwd s2.bEx id).bwd } } := by
+  simp only [deleteA0Tail, bind, Except.bind, pure, Except.pure] at h
+  split at h
+  · cases h
+  · next tx htx =>
+    split at h
+    · cases h
+    · next s2 hs2 =>
+      cases h
+      obtain ⟨i1, i2⟩ := strip_round hi hold ha hx htx
+      obtain ⟨f1, f2, f3, f4, f5, f6, f7, f8, f9, f10⟩ := i2.fields
+      have i1' : IdxInv (s.a.erase id) ({ tx with uColour := uniqueBeforeDelete (evColour (some e)) tx.uColour } : State) :=
+        ⟨i1.uName, i1.uAlias, i1.sRoles, i1.nek, i1.br, i1.thgDom⟩
+      obtain ⟨j1, j2⟩ := strip_round (s1 := { tx with uColour := uniqueBeforeDelete (evColour (some e)) tx.uColour })
+        hi hold (f3.trans ha) (Or.inr i1') hs2
+      obtain ⟨g1, g2, g3, g4, g5, g6, g7, g8, g9, g10⟩ := j2.fields
+      simp only at g1 g2 g3 g4 g5 g6 g7 g8 g9 g10
+      exact ⟨s2, j1, g1.trans f1, g2.trans f2, g3.trans f3, g4.trans f4, g5.trans f5, g6.trans f6, g7.trans f7,
+        g9.trans f9, g8.trans f8, by rw [g10, f10]; rfl, rfl⟩
+
+/-- what `deleteA0` computes, stage by stage -/
 theorem deleteA0_stages {s s' : State} {id : Id} (hi : InvCore s) (h : deleteA0 s id = .ok s') :
     id ≠ [] ∧ ∃ e s2, s.a.lookup id = some e ∧ IdxInv (s.a.erase id) s2 ∧
       s2.hasA = s.hasA ∧ s2.hasB = s.hasB ∧ s2.a = s.a ∧ s2.b = s.b ∧ s2.g = s.g ∧ s2.rc = s.rc ∧
       s2.uLabel = s.uLabel ∧ s2.uCode = uniqueBeforeDelete (e.code.getD []) s.uCode ∧
-      s2.p = s.p.cleanFwd s.bEx id ∧
+      s2.p = s.p.cleanFwd s.bEx id ∧ s2.uColour = uniqueBeforeDelete (e.colour.getD []) s.uColour ∧
       s' = { s2 with a := s2.a.erase id,
                      g := { fwd := (s2.g.cleanFwd s2.bEx id).fwd.erase id, bwd := (s2.g.cleanFwd s2.bEx id).bwd },
                      p := { fwd := s2.p.fwd.erase id, bwd := s2.p.bwd },
@@ -938,18 +1203,13 @@ theorem deleteA0_stages {s s' : State} {id : Id} (hi : InvCore s) (h : deleteA0 
       cases hc : e.code with
       | none =>
         simp only [hc, Option.isSome_none, Bool.false_eq_true, if_false] at h
-        split at h
-        · cases h
-        · next s2 hs2 =>
-          cases h
-          obtain ⟨i1, i2⟩ := beforeDeleteA_first hi.idx hold hs2
-          obtain ⟨f1, f2, f3, f4, f5, f6, f7, f8, f9⟩ := i2.fields
-          have hpn : s.p.fwd.lookup id = none := by
-            cases hl : s.p.fwd.lookup id with
-            | none => rfl
-            | some l => have := hi.p.fwdDom id l hl; simp [State.cEx, hold, hc] at this
-          exact ⟨e, s2, hold, i1, f1, f2, f3, f4, f5, f7, f9,
-            by rw [f8]; simp [uniqueBeforeDelete, hc], by rw [f6, LinkPair.cleanFwd_of_none hpn], rfl⟩
+        obtain ⟨s2, ix, t1, t2, t3, t4, t5, t6, t7, t8, t9, t10, rfl⟩ := deleteA0Tail_stages hi hold rfl (Or.inl hi.idx) h
+        have hpn : s.p.fwd.lookup id = none := by
+          cases hl : s.p.fwd.lookup id with
+          | none => rfl
+          | some l => have := hi.p.fwdDom id l hl; simp [State.cEx, hold, hc] at this
+        exact ⟨e, s2, hold, ix, t1, t2, t3, t4, t5, t7, t8,
+          by rw [t9]; simp [uniqueBeforeDelete, hc], by rw [t6, LinkPair.cleanFwd_of_none hpn], t10, rfl⟩
       | some c =>
         simp only [hc, Option.isSome_some, if_true] at h
         split at h
@@ -959,25 +1219,18 @@ theorem deleteA0_stages {s s' : State} {id : Id} (hi : InvCore s) (h : deleteA0 
           · cases hs1
           · next t ht =>
             cases hs1
-            split at h
-            · cases h
-            · next s2 hs2 =>
-              cases h
-              obtain ⟨i1, i2⟩ := beforeDeleteA_first hi.idx hold ht
-              obtain ⟨f1, f2, f3, f4, f5, f6, f7, f8, f9⟩ := i2.fields
-              have i1' : IdxInv (s.a.erase id)
-                  ({ t with uCode := uniqueBeforeDelete (evCode (some e)) t.uCode, p := t.p.cleanFwd t.bEx id } : State) :=
-                ⟨i1.uName, i1.uAlias, i1.sRoles, i1.nek, i1.br, i1.thgDom⟩
-              have hold1 : ({ t with uCode := uniqueBeforeDelete (evCode (some e)) t.uCode, p := t.p.cleanFwd t.bEx id } : State).a.lookup id = some e := by
-                show t.a.lookup id = some e; rw [f3]; exact hold
-              obtain ⟨j1, j2⟩ := beforeDeleteA_again i1' (by simp) hold1
-                (other_names_differ (f := fun (e : EntA) => e.name) hi.uName hold)
-                (other_names_differ (f := fun (e : EntA) => e.alias.getD []) hi.uAlias hold) hs2
-              obtain ⟨g1, g2, g3, g4, g5, g6, g7, g8, g9⟩ := j2.fields
-              simp only at g1 g2 g3 g4 g5 g6 g7 g8 g9
-              have hbe : t.bEx = s.bEx := bEx_congr f4
-              exact ⟨e, s2, hold, j1, by rw [g1, f1], by rw [g2, f2], by rw [g3, f3], by rw [g4, f4], by rw [g5, f5],
-                by rw [g7, f7], by rw [g9, f9], by rw [g8, f8]; simp [evCode, hc], by rw [g6, f6, hbe], rfl⟩
+            obtain ⟨i1, i2⟩ := beforeDeleteA_first hi.idx hold ht
+            obtain ⟨f1, f2, f3, f4, f5, f6, f7, f8, f9, f10⟩ := i2.fields
+            have i1' : IdxInv (s.a.erase id)
+                ({ t with uCode := uniqueBeforeDelete (evCode (some e)) t.uCode, p := t.p.cleanFwd t.bEx id } : State) :=
+              ⟨i1.uName, i1.uAlias, i1.sRoles, i1.nek, i1.br, i1.thgDom⟩
+            obtain ⟨s2, ix, t1, t2, t3, t4, t5, t6, t7, t8, t9, t10, rfl⟩ :=
+              deleteA0Tail_stages (s1 := { t with uCode := uniqueBeforeDelete (evCode (some e)) t.uCode, p := t.p.cleanFwd t.bEx id })
+                hi hold f3 (Or.inr i1') h
+            simp only at t1 t2 t3 t4 t5 t6 t7 t8 t9 t10
+            have hbe : t.bEx = s.bEx := bEx_congr f4
+            exact ⟨e, s2, hold, ix, t1.trans f1, t2.trans f2, t3.trans f3, t4.trans f4, t5.trans f5, t7.trans f7,
+              t8.trans f9, by rw [t9, f8]; simp [evCode, hc], by rw [t6, f6, hbe], by rw [t10, f10], rfl⟩
 
 theorem aEx_erase {s s' : State} {id : Id} (ha : s'.a = s.a.erase id) :
     ∀ j, s.aEx j = true → j ≠ id → s'.aEx j = true := by
@@ -989,9 +1242,9 @@ theorem cEx_erase {s s' : State} {id : Id} (ha : s'.a = s.a.erase id) :
 
 theorem core_deleteA0 {s s' : State} {id : Id} (hi : InvCore s) (h : deleteA0 s id = .ok s') :
     InvCore s' ∧ s'.a = s.a.erase id ∧ s'.b = s.b ∧ s'.uLabel = s.uLabel ∧ s'.hasB = s.hasB ∧ s'.hasA = s.hasA := by
-  obtain ⟨hid, e, s2, hold, ix, q1, q2, q3, q4, q5, q6, q7, q8, q9, rfl⟩ := deleteA0_stages hi h
+  obtain ⟨hid, e, s2, hold, ix, q1, q2, q3, q4, q5, q6, q7, q8, q9, q10, rfl⟩ := deleteA0_stages hi h
   have hbe : s2.bEx = s.bEx := bEx_congr q4
-  refine ⟨⟨?_, ?_, ?_, ?_, ?_, ?_, ?_, ?_, ?_, ?_, ?_, ?_, ?_, ?_, ?_, ?_, ?_, ?_, ?_⟩, by simp [q3], q4, q7, q2, q1⟩
+  refine ⟨⟨?_, ?_, ?_, ?_, ?_, ?_, ?_, ?_, ?_, ?_, ?_, ?_, ?_, ?_, ?_, ?_, ?_, ?_, ?_, ?_⟩, by simp [q3], q4, q7, q2, q1⟩
   · show UI _ (s2.a.erase id) s2.uName; rw [q3]; exact ix.uName
   · show UI _ (s2.a.erase id) s2.uAlias; rw [q3]; exact ix.uAlias
   · show UI _ (s2.a.erase id) s2.uCode; rw [q3, q8]
@@ -1037,6 +1290,8 @@ theorem core_deleteA0 {s s' : State} {id : Id} (hi : InvCore s) (h : deleteA0 s 
     · simp
     · exact hi.hasA j e'
   · intro j e'; show s2.b.lookup j = some e' → s2.hasB = true; rw [q4, q2]; exact hi.hasB j e'
+  · show UI _ (s2.a.erase id) s2.uColour; rw [q3, q10]
+    exact C03.uniqueBeforeDelete_ok (f := fun (e : EntA) => e.colour.getD []) hi.uColour hold
 
 
 
@@ -1169,6 +1424,17 @@ theorem beforeDeleteA_a {s s' : State} {id : Id} (h : beforeDeleteA s id = .ok s
   · obtain ⟨_, rfl⟩ := backrefDel_eq hfk; rfl
   · cases hfk; rfl
 
+/-- a cascade over a state whose remaining referrers of the id are all in progress does nothing -/
+theorem cascadeBoss_skip {del : List Id → State → Id → Except Err State} {busy : List Id} {s0 t : State} {id : Id}
+    (hta : t.a = s0.a) (c7 : ∀ j e, s0.a.lookup j = some e → e.boss.getD [] = id → j ∈ markBusy busy id) :
+    cascadeBoss del busy t id = .ok t := by
+  unfold cascadeBoss
+  apply cascadeLoop_skip
+  intro j hj
+  rw [minions_congr (s := s0) hta] at hj
+  obtain ⟨ej, hje, hjb⟩ := (mem_minions s0 id j).1 hj
+  exact Or.inl (c7 j ej hje hjb)
+
 /-- `A.DeleteById` = the cascade over the referrers, then the delete proper (`deleteA0`): the cascade
     loops of the later constraint rounds find every remaining referrer in progress -/
 theorem deleteA_decomp {fuel : Nat} (hd : DelSpec (deleteA fuel)) {busy : List Id} {s s' : State} {id : Id}
@@ -1190,13 +1456,21 @@ theorem deleteA_decomp {fuel : Nat} (hd : DelSpec (deleteA fuel)) {busy : List I
         | error x => simp [hcb] at h
         | ok s0 =>
           simp only [hcb] at h
-          obtain ⟨_, _, _, _, _, _, _, c8⟩ := cascadeBoss_spec hd hi hb' hcb
+          obtain ⟨_, _, _, _, _, _, c7, c8⟩ := cascadeBoss_spec hd hi hb' hcb
           have hold0 : s0.a.lookup id = some e := by
             rw [c8 id ((mem_markBusy busy id id).2 (Or.inl rfl))]; exact hold
-          refine ⟨s0, rfl, ?_⟩
-          unfold deleteA0
-          simp only [hid, if_false, hold0, hc, Option.isSome_none, Bool.false_eq_true, bind, Except.bind, pure, Except.pure]
-          exact h
+          cases hbd : beforeDeleteA s0 id with
+          | error x => simp [hbd] at h
+          | ok tx =>
+            simp only [hbd] at h
+            rw [cascadeBoss_skip (s0 := s0)
+              (t := { tx with uColour := uniqueBeforeDelete (evColour (some e)) tx.uColour })
+              (show tx.a = s0.a from beforeDeleteA_a hbd) c7] at h
+            refine ⟨s0, rfl, ?_⟩
+            unfold deleteA0
+            simp only [hid, if_false, hold0, hc, Option.isSome_none, Bool.false_eq_true, bind, Except.bind, pure, Except.pure,
+              deleteA0Tail, hbd]
+            exact h
       | some c =>
         simp only [hc, Option.isSome_some, if_true] at h
         cases hcb : cascadeBoss (deleteA fuel) busy s id with
@@ -1211,21 +1485,22 @@ theorem deleteA_decomp {fuel : Nat} (hd : DelSpec (deleteA fuel)) {busy : List I
           | ok t =>
             simp only [hbd] at h
             have hta : t.a = s0.a := beforeDeleteA_a hbd
-            -- the second cascade is the identity
-            have hskip : cascadeBoss (deleteA fuel) busy
-                ({ t with uCode := uniqueBeforeDelete (evCode (some e)) t.uCode, p := t.p.cleanFwd t.bEx id } : State) id =
-                .ok { t with uCode := uniqueBeforeDelete (evCode (some e)) t.uCode, p := t.p.cleanFwd t.bEx id } := by
-              unfold cascadeBoss
-              apply cascadeLoop_skip
-              intro j hj
-              rw [minions_congr (s := s0) (by exact hta)] at hj
-              obtain ⟨ej, hje, hjb⟩ := (mem_minions s0 id j).1 hj
-              exact Or.inl (c7 j ej hje hjb)
-            rw [hskip] at h
-            refine ⟨s0, rfl, ?_⟩
-            unfold deleteA0
-            simp only [hid, if_false, hold0, hc, Option.isSome_some, if_true, bind, Except.bind, pure, Except.pure, hbd]
-            exact h
+            -- the cascades of the later rounds are the identity
+            rw [cascadeBoss_skip (s0 := s0)
+              (t := { t with uCode := uniqueBeforeDelete (evCode (some e)) t.uCode, p := t.p.cleanFwd t.bEx id }) hta c7] at h
+            simp only at h
+            cases hbd2 : beforeDeleteA ({ t with uCode := uniqueBeforeDelete (evCode (some e)) t.uCode, p := t.p.cleanFwd t.bEx id } : State) id with
+            | error x => simp [hbd2] at h
+            | ok tx =>
+              simp only [hbd2] at h
+              rw [cascadeBoss_skip (s0 := s0)
+                (t := { tx with uColour := uniqueBeforeDelete (evColour (some e)) tx.uColour })
+                (show tx.a = s0.a from (beforeDeleteA_a hbd2).trans hta) c7] at h
+              refine ⟨s0, rfl, ?_⟩
+              unfold deleteA0
+              simp only [hid, if_false, hold0, hc, Option.isSome_some, if_true, bind, Except.bind, pure, Except.pure, hbd,
+                deleteA0Tail, hbd2]
+              exact h
 
 theorem deleteA_spec (fuel : Nat) : DelSpec (deleteA fuel) := by
   induction fuel with
@@ -1276,7 +1551,7 @@ theorem deleteATop_id_ne {s s' : State} {id : Id} (h : deleteATop s id = .ok s')
 
 theorem core_congr_uLabel {s : State} (h : InvCore s) (x : Map Bytes Id) : InvCore { s with uLabel := x } :=
   ⟨h.uName, h.uAlias, h.uCode, h.sRoles, h.nek, h.br, h.thgDom, h.ownerExists, h.depExists, h.g, h.p, h.rc,
-    h.namesNonEmpty, h.rolesNonEmpty, h.codeNonEmpty, h.idA, h.idB, h.hasA, h.hasB⟩
+    h.namesNonEmpty, h.rolesNonEmpty, h.codeNonEmpty, h.idA, h.idB, h.hasA, h.hasB, h.uColour⟩
 
 theorem deleteAll_spec {ks : List Id} {s s' : State} (hi : InvCore s) (hbo : BossOK [] s) (h : deleteAll ks s = .ok s') :
     InvCore s' ∧ BossOK [] s' ∧ s'.b = s.b ∧ s'.uLabel = s.uLabel ∧ s'.hasB = s.hasB ∧
@@ -1285,22 +1560,33 @@ theorem deleteAll_spec {ks : List Id} {s s' : State} (hi : InvCore s) (hbo : Bos
   | nil => simp only [deleteAll] at h; cases h; exact ⟨hi, hbo, rfl, rfl, rfl, fun _ _ h => h, by simp⟩
   | cons k rest ih =>
     simp only [deleteAll] at h
-    cases hk : deleteATop s k with
-    | error e => simp [hk] at h
-    | ok s1 =>
-      simp only [hk] at h
-      have p := deleteATop_spec hi hbo hk
-      obtain ⟨d1, d0, d2, d3, d4, d5, d6⟩ := ih p.core p.boss h
-      refine ⟨d1, d0, d2.trans p.b, d3.trans p.uLabel, d4.trans p.hasB, fun j e hj => p.sub j e (d5 j e hj), ?_⟩
+    split at h
+    · next hskip =>
+      obtain ⟨d1, d0, d2, d3, d4, d5, d6⟩ := ih hi hbo h
+      refine ⟨d1, d0, d2, d3, d4, d5, ?_⟩
       intro j hj
       simp only [List.mem_cons] at hj
       rcases hj with rfl | hj
       · cases hl : s'.a.lookup j with
         | none => rfl
-        | some e =>
-          have := d5 j e hl
-          rw [p.gone] at this; cases this
+        | some e => have := d5 j e hl; simp [State.aEx, this] at hskip
       · exact d6 j hj
+    · cases hk : deleteATop s k with
+      | error e => simp [hk] at h
+      | ok s1 =>
+        simp only [hk] at h
+        have p := deleteATop_spec hi hbo hk
+        obtain ⟨d1, d0, d2, d3, d4, d5, d6⟩ := ih p.core p.boss h
+        refine ⟨d1, d0, d2.trans p.b, d3.trans p.uLabel, d4.trans p.hasB, fun j e hj => p.sub j e (d5 j e hj), ?_⟩
+        intro j hj
+        simp only [List.mem_cons] at hj
+        rcases hj with rfl | hj
+        · cases hl : s'.a.lookup j with
+          | none => rfl
+          | some e =>
+            have := d5 j e hl
+            rw [p.gone] at this; cases this
+        · exact d6 j hj
 
 theorem mem_dependants (s : State) (id j : Id) :
     j ∈ dependants s id ↔ ∃ e, s.a.lookup j = some e ∧ e.dep.getD [] = id := by
@@ -1355,7 +1641,7 @@ theorem inv_deleteB {s s' : State} {id : Id} (hi : Inv s) (h : deleteB s id = .o
     rw [hj] at this; cases this
   have hbmono := bEx_erase (s := s1) (s' := { s1 with b := s1.b.erase id }) (id := id) rfl
   refine ⟨⟨c.uName, c.uAlias, c.uCode, c.sRoles, c.nek, ?_, ?_, ?_, ?_, ?_, ?_, ?_, c.namesNonEmpty, c.rolesNonEmpty,
-    c.codeNonEmpty, c.idA, ?_, c.hasA, ?_⟩, ?_, ?_⟩
+    c.codeNonEmpty, c.idA, ?_, c.hasA, ?_, c.uColour⟩, ?_, ?_⟩
   · intro b j
     have := c.br b j
     show j ∈ ((s1.thg.erase id).lookup b).getD [] ↔ _
@@ -1398,6 +1684,8 @@ theorem inv_stepRaw {s s' : State} {op : Op} (hi : Inv s) (h : stepRaw s op = .o
   | updateA id v chk => exact inv_updateA hi h
   | deleteA id => exact inv_deleteA hi h
   | createA1 id v code pals => exact inv_createA1 hi h
+  | createA2 id v colour => exact inv_createA2 hi h
+  | updateA2 id v colour chk cc => exact inv_updateA2 hi h
   | createB id l => exact inv_createB hi h
   | updateB id l chk => exact inv_updateB hi h
   | deleteB id => exact inv_deleteB hi h
